@@ -19,6 +19,7 @@ RULE = ("cases = (mode, TimePoint kwargs, Duration kwargs with months and/or "
         "modes, plus seeded random; non-trivial = the reference result "
         "needed a clamp or crossed a year boundary; distinct by (mode, "
         "p-fields, d-fields)")
+RUN_REPO_SUITE = True   # thorough tier: repo tests under these monitors
 DECIDING = ["nominal.post", "add_months.post"]
 MIN_EVALS = {"nominal.post": 4000, "add_months.post": 3000}
 ASSUMPTIONS = [
